@@ -79,7 +79,7 @@ def added_loops(rows):
         if n == 0:
             inv.append("(g_old <= g_b && g_b < i) ==> gp_bid[g_b] == g_key")
             asg.append("__CPROVER_object_from(gp_bid + g_old)")
-        out.append({"function": HB, "loop": n, "locals": ["i"], "invariants": inv, "assigns": asg, "decreases": dec})
+        out.append({"function": HB, "loop": n, "locals": [["i", "1::1::%d::1::i" % (n + 1)]], "invariants": inv, "assigns": asg, "decreases": dec})
     return out
 
 RIB = r"H::restoreInitialBasis\(this\)"
@@ -115,7 +115,8 @@ S_changedRow = S("Basis_changedRow.inc", CHG, r"void\s+SPxBasisBase<R>::changedR
 S_changedCol = S("Basis_changedCol.inc", CHG, r"void\s+SPxBasisBase<R>::changedCol\s*\(\s*int\s*/\*col\*/\s*\)", [r"invalidate\(\);\s*restoreInitialBasis\(\);"])
 S_changedElement = S("Basis_changedElement.inc", CHG, r"void\s+SPxBasisBase<R>::changedElement\s*\(\s*int\s*/\*row\*/\s*,\s*int\s*/\*col\*/\s*\)", [r"invalidate\(\);\s*restoreInitialBasis\(\);"])
 
-ALL_LOOPS_UNWOUND = lambda fns: {"unwind": 10, "unwind_loops": [{"function": f, "loop": n} for f, k in fns for n in range(k)]}
+CCAP = 4
+ALL_LOOPS_UNWOUND = lambda fns: {"unwind": CCAP + 2, "unwind_loops": [{"function": f, "loop": n} for f, k in fns for n in range(k)]}
 MANY = {"harness": "h_removedMany", "enforce": "w_removedMany"}
 ADDED = {"harness": "h_added", "enforce": "w_added"}
 CHANGED = {"harness": "h_changed", "enforce": "w_changed"}
@@ -123,8 +124,8 @@ def variants(name, function, slices, loops, mutants, count_mutants, loopfns, ext
     out = [inst(name, function, slices, loops + resize_loops(), mutants, minob, extra=extra, defines=defines)]
     if count:
         e = dict(extra); e.update(ALL_LOOPS_UNWOUND(loopfns + [(RSZ, 2)]))
-        d = dict(defines or {}); d["INST_" + name] = ""; d["COUNTV"] = ""
-        c = inst(name + "_count", function + "  [explicit basic count, all loops unwound completely, <= 8 rows and columns]", slices, [], count_mutants, minob, extra=e, defines=d)
+        d = dict(defines or {}); d["INST_" + name] = ""; d["COUNTV"] = ""; d["CAP"] = str(CCAP)
+        c = inst(name + "_count", function + "  [explicit basic count, all loops unwound completely, <= %d rows and columns]" % CCAP + "", slices, [], count_mutants, minob, extra=e, defines=d)
         del c["defines"]["INST_" + name + "_count"]
         out.append(c)
     return out
